@@ -20,8 +20,9 @@
               evaluated with the model's grammar automaton (ORDER=)
 
    The Section variables of Transfer.v: digest := byte list; H := lookup content -> md5 in the
-   case; deq := (=); zcomp := lookup content -> [z] (chunks unchanged when the case has no z);
-   zdecomp := the inverse lookup (identity otherwise); zl := identity; unzl := Some. *)
+   case; deq := (=); zcomp := lookup content -> [z] (no z in the case: [] for the empty content,
+   a poison stream otherwise, so that a compression decision the implementation did not take shows);
+   zdecomp := the inverse lookup ([] -> [], anything else fails); zl := identity; unzl := Some. *)
 open Model
 open Util
 
@@ -96,9 +97,15 @@ let () =
           | _ -> failwith "entry") (split ',' entries) in
       let h c = match List.assoc_opt c !htab with Some d -> d | None -> [] in
       let deq (a : n list) b = a = b in
-      let zcomp chunks = match List.assoc_opt (List.concat chunks) !ztab with Some z -> [z] | None -> chunks in
+      (* a content the implementation did not compress has no z in the case: if the model decides to
+         compress it all the same, it gets a stream that cannot be mistaken for anything observed
+         (the empty content is the exception: zstd writes nothing for no input) *)
+      let poison = List.map n_of_int [33; 110; 111; 122; 33] in
+      let zcomp chunks =
+        let c = List.concat chunks in
+        match List.assoc_opt c !ztab with Some z -> [z] | None -> if c = [] then [] else [poison] in
       let zinv = List.map (fun (c, z) -> (z, c)) !ztab in
-      let zdecomp z = match List.assoc_opt z zinv with Some c -> Some c | None -> Some z in
+      let zdecomp z = match List.assoc_opt z zinv with Some c -> Some c | None -> if z = [] then Some [] else None in
       let zl x = x and unzl x = Some x in
       let fuel = tr_fuel zcomp cfg ess in
       let cf = tr_run h deq zcomp zdecomp zl unzl fuel cfg dest ess f0 in
